@@ -237,6 +237,15 @@ func cmdCheck(prop, tier string) int {
 				}
 				block = append(block, cex.Block)
 			}
+			if !rr.Confirmed {
+				dir, _ := w.pkgDirOf(o.gen.fn.Pkg.Pkg)
+				if pr := replayProbe(*flagRepo, filepath.Join(verif, "replay"), o.gen.fn, dir, tmp); pr.Ran {
+					rep["probe"] = pr
+					if pr.Confirmed {
+						rr = pr
+					}
+				}
+			}
 			if len(tried) > 0 {
 				rep["candidates"] = tried
 			} else {
@@ -446,7 +455,7 @@ func genLemma(w *World, name string) (*Gen, error) {
 			}
 		}()
 		for _, a := range w.ss.Axioms {
-			use := !a.IsLemma && (a.PkgDir == "" || a.PkgDir == ax.PkgDir)
+			use := !a.IsLemma && a.PkgDir != "" && a.PkgDir == ax.PkgDir
 			for _, u := range ax.Uses {
 				if u == a.Name {
 					use = true
